@@ -185,3 +185,53 @@ Proof.
       change 0%Q with (inject_Z 0) in E. apply (proj1 (inject_Z_injective _ _)) in E. exact E.
     + right. apply Z.ltb_ge in Nf. rewrite Zle_Qle in Nf. rewrite ED in Nf. change (inject_Z 0) with 0%Q in Nf. lra.
 Qed.
+
+(** ** the parametric meaning of a proper crossing, both directions *)
+Definition cross2 (a b c d : pt) : Z :=
+  (fst b - fst a) * (snd d - snd c) - (snd b - snd a) * (fst d - fst c).
+
+Lemma cross2_orient a b c d :
+  orient3 a b c - orient3 a b d = - cross2 a b c d /\ orient3 c d a - orient3 c d b = cross2 a b c d.
+Proof. unfold orient3, cross2. split; ring. Qed.
+
+Open Scope Q_scope.
+
+Lemma opposite_of_convex (t x y : Q) : 0 < t -> t < 1 -> (1 - t) * x + t * y == 0 -> ~ x == y ->
+  (0 < x /\ y < 0) \/ (x < 0 /\ 0 < y).
+Proof.
+  intros T0 T1 E N. destruct (Qlt_le_dec y x) as [L | G].
+  - left. pose proof (mul_pos t (x - y) T0 ltac:(lra)). pose proof (mul_pos (1 - t) (x - y) ltac:(lra) ltac:(lra)).
+    split; lra.
+  - assert (L : x < y) by (destruct (Qlt_le_dec x y); [assumption | exfalso; apply N; lra]).
+    right. pose proof (mul_pos t (y - x) T0 ltac:(lra)). pose proof (mul_pos (1 - t) (y - x) ltac:(lra) ltac:(lra)).
+    split; lra.
+Qed.
+
+Open Scope Z_scope.
+
+Lemma open_share_opposite a b c d (s t : Q) : cross2 a b c d <> 0 -> (0 < t)%Q -> (t < 1)%Q ->
+  (co (fst a) (fst b) s == co (fst c) (fst d) t)%Q -> (co (snd a) (snd b) s == co (snd c) (snd d) t)%Q ->
+  opposite (orient3 a b c) (orient3 a b d).
+Proof.
+  intros ND T0 T1 Hx Hy. pose proof (straddle_q _ _ _ _ _ _ _ _ s t Hx Hy) as E. rewrite <- !inject_orient3 in E.
+  destruct (cross2_orient a b c d) as [E12 _].
+  assert (N : ~ (inject_Z (orient3 a b c) == inject_Z (orient3 a b d))%Q).
+  { intro Q. apply (proj1 (inject_Z_injective _ _)) in Q. lia. }
+  destruct (opposite_of_convex t _ _ T0 T1 E N) as [[A B] | [A B]]; unfold opposite;
+    change 0%Q with (inject_Z 0) in A, B; rewrite <- Zlt_Qlt in A, B; auto.
+Qed.
+
+Theorem proper_cross_iff_param a b c d :
+  proper_cross a b c d <->
+  cross2 a b c d <> 0 /\
+  exists s t : Q, (0 < s /\ s < 1 /\ 0 < t /\ t < 1 /\
+    co (fst a) (fst b) s == co (fst c) (fst d) t /\ co (snd a) (snd b) s == co (snd c) (snd d) t)%Q.
+Proof.
+  split.
+  - intro H. split; [| apply proper_cross_param; exact H].
+    destruct H as [_ H34]. destruct (cross2_orient a b c d) as [_ E34]. unfold opposite in H34. lia.
+  - intros [ND [s [t [S0 [S1 [T0 [T1 [Hx Hy]]]]]]]]. split.
+    + exact (open_share_opposite a b c d s t ND T0 T1 Hx Hy).
+    + apply (open_share_opposite c d a b t s); try assumption; try (symmetry; assumption).
+      destruct (cross2_orient a b c d) as [_ E1]. destruct (cross2_orient c d a b) as [E2 _]. lia.
+Qed.
